@@ -12,6 +12,7 @@ import (
 	"encoding/json"
 	"fmt"
 	"hash/fnv"
+	"log"
 	"os"
 	"path/filepath"
 	"runtime/debug"
@@ -299,7 +300,58 @@ func InstallLockWatch() {
 	}
 }
 
+// ---- package-level state ------------------------------------------------------------
+//
+// go-stackage has four package-level settings (default logger and default log level for new
+// Stacks and for new Conditions). They are reset at the top of every case (state must not
+// leak from one case into the next: C08/C17 call the package-level setters with synthesised
+// arguments), and for one case in four - chosen by a hash of the case, so that a replay
+// reproduces it - they are set to a live logger at every log level: no property names the
+// package defaults as relevant, so every verdict must be the same with them.
+
+type sinkWriter struct{}
+
+func (sinkWriter) Write(p []byte) (int, error) { return len(p), nil }
+
+var liveLogger = log.New(sinkWriter{}, "ambient ", 0) // NOT io.Discard: the library recognises that one
+
+var curProp string
+
+func resetPackageState() {
+	stackage.SetDefaultStackLogger("off")
+	stackage.SetDefaultConditionLogger("off")
+	stackage.SetDefaultStackLogLevel(stackage.NoLogLevels)
+	stackage.SetDefaultConditionLogLevel(stackage.NoLogLevels)
+}
+
+func globalAmbientFor(c any) bool {
+	if curProp == "C10" || curProp == "C11" {
+		return false // concurrent properties: keep the race stage's reports to the code under test
+	}
+	raw, err := json.Marshal(c)
+	if err != nil {
+		return false
+	}
+	h := fnv.New32a()
+	h.Write(raw)
+	return h.Sum32()%4 == 0
+}
+
+func applyGlobalAmbient() {
+	stackage.SetDefaultStackLogger(liveLogger)
+	stackage.SetDefaultConditionLogger(liveLogger)
+	if curProp != "C18" { // C18's model covers the log-level getters of fresh instances
+		stackage.SetDefaultStackLogLevel(stackage.AllLogLevels)
+		stackage.SetDefaultConditionLogLevel(stackage.AllLogLevels)
+	}
+}
+
 func safeRun[C any](run func(C) (Stats, error), c C) (st Stats, err error) {
+	resetPackageState()
+	if globalAmbientFor(c) {
+		applyGlobalAmbient()
+		defer func() { st.Class("package-defaults:live-logger"); resetPackageState() }()
+	}
 	defer func() {
 		if r := recover(); r != nil {
 			err = &Violation{Key: "harness/panic", Msg: fmt.Sprintf("panic escaped the property function: %v\n%s", r, debug.Stack())}
@@ -438,7 +490,10 @@ func bitsEven(n int) bool {
 }
 
 // ownsHook: the concurrent properties drive stackage.VerifHook themselves.
-func (r *defRunner[C]) armLockWatch() { lockWatch.on = r.d.ID != "C10" && r.d.ID != "C11" }
+func (r *defRunner[C]) armLockWatch() {
+	lockWatch.on = r.d.ID != "C10" && r.d.ID != "C11"
+	curProp = r.d.ID
+}
 
 func (r *defRunner[C]) runAll(t *testing.T) {
 	r.armLockWatch()
